@@ -234,6 +234,8 @@ def atoms_for_enum(vocab):
              ('MATH', '\\(', '\\)', [('T', 'x')]), ('MATH', '$$', '$$', [('T', 'x')]),
              ('MATH', '\\[', '\\]', []), ('C', 'c', '\n'), ('S', '~'), ('S', '--'), ('P', '\n\n')]
     for name, d in sorted(vocab.macros.items()):
+        if d.get('hidden'):
+            continue
         optional = [i for i, k in enumerate(d['sig']) if D.slot_opener(k) is not None or k == '[nospace']
         for present in itertools.product([False, True], repeat=len(optional)):
             pres = dict(zip(optional, present))
@@ -359,6 +361,8 @@ def run_shard(desc, rec):
         vseed = [777, 0]
         vocab, db = vocab_for({'vocab': 'custom', 'vseed': vseed})
         for name, d in sorted(vocab.macros.items()):
+            if d.get('hidden'):
+                continue
             for i, k in enumerate(d['sig']):
                 if k in ('{', 'm', 'v') or k == '[nospace':
                     continue
